@@ -1,6 +1,6 @@
 (* C02 - RPE values over exactly the selected pairs. Proofs in Evo.MetricsProofs. *)
 From Coq Require Import Reals List.
-From Evo Require Import Num Linalg LinalgR Lie LieProofs Metrics MetricsProofs.
+From Evo Require Import Num Linalg LinalgR Lie LieProofs Metrics MetricsProofs Filters RpeSelect.
 From EvoGen Require StepsC02.
 Import ListNotations.
 Local Open Scope R_scope.
@@ -33,6 +33,17 @@ Theorem C02_drift_invariant : forall rel pairs (A B : PoseR) (ref est : list Pos
   rpeR rel pairs (map (pmul A) ref) (map (pmul B) est) = rpeR rel pairs ref est.
 Proof. exact rpe_drift_invariant. Qed.
 Print Assumptions C02_drift_invariant.
+
+(* drift invariance of the WHOLE computation, pair selection included: the selector (frames / path length /
+   accumulated or direct rotation angle; consecutive or all pairs; on the estimate or on the reference) only looks at
+   distances and relative rotations, which a left rigid motion leaves unchanged *)
+Theorem C02_drift_invariant_including_pair_selection :
+  forall rel delta dframes u rel_tol all from_ref (A B : PoseR) (ref est : list PoseR),
+  Orth (prot A) -> Orth (prot B) -> ref <> [] -> (u = DFrames -> (1 <= dframes)%nat) ->
+  rpe_full angleR rad2degR PI rel delta dframes u rel_tol all from_ref (map (pmul A) ref) (map (pmul B) est) =
+  rpe_full angleR rad2degR PI rel delta dframes u rel_tol all from_ref ref est.
+Proof. exact rpe_full_drift_invariant. Qed.
+Print Assumptions C02_drift_invariant_including_pair_selection.
 
 Theorem C02_zero_for_same_relative_motion : forall rel (ref est : list PoseR) p,
   Orth (prot (nthp ref (fst p))) -> Orth (prot (nthp est (fst p))) -> Orth (prot (nthp ref (snd p))) ->
